@@ -205,6 +205,7 @@ func runC12(c *Check) {
 	ruleDecodersAcceptEmptyEncoding(c, p)
 	ruleCodecsArePure(c, p, "C12-R10")
 	ruleDecodersWriteFreshStorage(c, p, "C12-R11")
+	ruleDecodersRefuseOnlyTheUnrepresentable(c, p, "C12-R12")
 }
 
 // ruleCodecsArePure (C12-R10): the bytes of a value are a function of the value. The encoders,
@@ -1785,4 +1786,65 @@ func ruleDecodersWriteFreshStorage(c *Check, p *Prog, rule string) {
 		c.Unk(rule, "anchor-count", "", "", "anchor lost: no decoder methods in package types")
 	}
 	c.MinInstances(rule, 8)
+}
+
+// ruleDecodersRefuseOnlyTheUnrepresentable (C12-R12): what ToProto writes, FromProto reads back.
+// A decoder fails when a part of the message it needs is absent (a nil test on the message or a
+// sub-message) or when a call underneath fails (a key that does not parse); it has no opinion of
+// its own on the values — a decoder that refuses, say, an empty transaction makes a block the node
+// itself committed unreadable: every later step that loads it fails, on every restart again.
+func ruleDecodersRefuseOnlyTheUnrepresentable(c *Check, p *Prog, rule string) {
+	c.Doc(rule, "GA: in every FromProto of the wire types each error return is behind a nil test on (a part of) the message or behind the failure of a call underneath; no error return on a condition over the values carried (validation belongs to ValidateBasic, which the store's read path does not run).")
+	n := 0
+	for _, fn := range p.Funcs {
+		pk := fnPkg(fn)
+		if pk == nil || pk.Pkg.Path() != rootPath+"/types" || fn.Blocks == nil || fn.Signature.Recv() == nil || fn.Name() != "FromProto" || len(fn.Params) < 2 {
+			continue
+		}
+		n++
+		g := BuildECFG(p, fn, ExpandOpts{MaxDepth: 0})
+		c.NoteGraph(g)
+		msg := fn.Params[1].Name()
+		justified := g.Select(EdgeWhere(func(t *Term, pol bool, nd *Node) bool {
+			t, pol = normFact(t, pol)
+			if t.Op != "bin" || len(t.Args) != 2 || t.Args[1].Name != "nil" || (t.Name != "!=" && t.Name != "==") {
+				return false
+			}
+			isNil := (t.Name == "==") == pol
+			a := t.Args[0]
+			as := a.String()
+			if isNil && (as == msg || strings.HasPrefix(as, msg+".") || strings.Contains(as, ").Get") && strings.Contains(as, "("+msg)) {
+				return true // a part of the message is absent
+			}
+			if a.Op == "extract" && len(a.Args) > 0 {
+				a = a.Args[0]
+			}
+			return !isNil && (a.Op == "call" || a.Op == "invoke" || a.Op == "dyncall") // a call underneath failed
+		}))
+		var refusing *Node
+		for _, x := range g.Exits {
+			if g.ExitClass(x) != rcA {
+				continue
+			}
+			ret := x.In.(*ssa.Return)
+			rt := TermOf(spilledResult(ret, len(ret.Results)-1), x.Ctx)
+			if (rt.Op == "call" || rt.Op == "invoke" || rt.Op == "extract") && !rt.IsCall("fmt.Errorf") && !rt.IsCall("errors.New") && !rt.IsCall("errors.Join") {
+				continue
+			}
+			xx := x
+			if g.PathAvoiding([]*Node{g.Entry}, func(y *Node) bool { return y == xx }, nodeSet(justified)) != nil {
+				refusing = x
+			}
+		}
+		inst := fnShort(fn) + " ⟂ refuses only what is absent or unparsable"
+		if refusing == nil {
+			c.OK(rule, inst, fnName(fn), p.Pos(fn.Pos()), "every error return is behind an absent message part or a failed call", true)
+		} else {
+			c.Bad(rule, inst, fnName(fn), p.InstrPos(refusing.In), "the decoder can return an error although no part of the message is absent and nothing underneath failed: it refuses a value on a condition of its own, which the encoder does not share — a value the node itself wrote (a block with such data, committed and saved) can no longer be read back, and every step that loads it fails from then on", nil)
+		}
+	}
+	if n == 0 {
+		c.Unk(rule, "anchor-count", "", "", "anchor lost: no FromProto in package types")
+	}
+	c.MinInstances(rule, 6)
 }
